@@ -609,6 +609,13 @@ class Interp:
         if "int" in c:
             w, s = int_type(c["ty"])
             if w is None:
+                # a constant of a one-field struct (`const STARTING: Epoch = Epoch { data: 0 }`) is a scalar to the compiler
+                for a in self.prog.items.get("adts", []):
+                    if a["path"] == c["ty"] and len(a["variants"]) == 1 and len(a["variants"][0]["fields"]) == 1:
+                        f = a["variants"][0]["fields"][0]
+                        fw, fs = int_type(f["ty"])
+                        if fw is not None:
+                            return {"__adt": c["ty"], f["name"]: W.const(int(c["int"]), fw, fs)}
                 w, s = c.get("size", 8) * 8, False
             return W.const(int(c["int"]), w, s)
         if "param" in c:
